@@ -782,6 +782,57 @@ impl Board {
     }
 }
 
+#[cfg(rce_verif)]
+impl Board {
+    /// Verification hook: the fifteen bitboards in declaration order.
+    pub fn verif_bitboards(&self) -> [u64; 15] {
+        let b = &self.bitboards;
+        [
+            *b.white_pawns,
+            *b.white_king,
+            *b.white_queens,
+            *b.white_rooks,
+            *b.white_knights,
+            *b.white_bishops,
+            *b.black_pawns,
+            *b.black_king,
+            *b.black_queens,
+            *b.black_rooks,
+            *b.black_knights,
+            *b.black_bishops,
+            *b.white_pieces,
+            *b.black_pieces,
+            *b.all_pieces,
+        ]
+    }
+
+    /// Verification hook: the en passant file.
+    pub fn verif_en_passant_file(&self) -> Option<u8> {
+        self.en_passant_file
+    }
+
+    /// Verification hook: the undo stack, oldest first.
+    pub fn verif_history(&self) -> &[Ply] {
+        &self.history
+    }
+
+    /// Verification hook: the remembered earlier positions as sorted (key, multiplicity) pairs.
+    pub fn verif_position_history(&self) -> Vec<(u64, u64)> {
+        let mut out: Vec<(u64, u64)> = self
+            .position_history
+            .iter()
+            .map(|k| (k.verif_u64(), 1))
+            .collect();
+        out.sort_unstable();
+        out
+    }
+
+    /// Verification hook: squares attacked by the opponent of `color`.
+    pub fn verif_attacked_squares(&self, color: Color) -> u64 {
+        *self.get_attacked_squares(color)
+    }
+}
+
 impl fmt::Display for Board {
     /// Prints out a symbolic representation of the board in an 8x8 grid.
     fn fmt(&self, f: &mut fmt::Formatter) -> fmt::Result {
